@@ -179,6 +179,48 @@ func decodedOfTrack(h *history, r *runResult, t int) trackDecoded {
 
 func mulDivGo(v, m, d int64) int64 { return (v/d)*m + (v%d)*m/d }
 
+// does the written unit carry parameter sets for its (video) track? H264 / H265: any unit with
+// in-band SPS/PPS(/VPS) NALUs; VP9: a key frame (its header is the parameter set); AV1: a temporal
+// unit with a sequence header, which is also what makes it random access.
+func carriesParams(kind int, a *auA) bool {
+	switch kind {
+	case kH264, kH265:
+		return a.HasParams
+	case kVP9, kAV1:
+		return a.RA
+	}
+	return false
+}
+
+// does the decoded init track describe parameter id p of a track of this kind?
+// second result: the init's codec is of the track's kind at all
+func initCarries(kind int, c fmp4.Codec, p int64) (bool, bool) {
+	switch kind {
+	case kH264:
+		c, ok := c.(*fmp4.CodecH264)
+		return ok && bytes.Equal(c.SPS, spsOf(p)) && bytes.Equal(c.PPS, ppsOf(p)), ok
+	case kH265:
+		c, ok := c.(*fmp4.CodecH265)
+		return ok && bytes.Equal(c.VPS, h265VPSOf(p)) && bytes.Equal(c.SPS, h265SPSOf(p)) && bytes.Equal(c.PPS, h265PPSOf(p)), ok
+	case kVP9:
+		c, ok := c.(*fmp4.CodecVP9)
+		v := vp9ParamsOf(p)
+		return ok && c.Width == v.w && c.Height == v.h && c.Profile == v.profile && c.BitDepth == v.bitDepth &&
+			c.ChromaSubsampling == v.subsampling && c.ColorRange == v.colorRange, ok
+	case kAV1:
+		c, ok := c.(*fmp4.CodecAV1)
+		// av1C carries the configuration OBUs in the low-overhead format (with obu_size)
+		return ok && bytes.Equal(av1WithSize(c.SequenceHeader), av1WithSize(av1SeqHdrOf(p))), ok
+	case kAAC:
+		_, ok := c.(*fmp4.CodecMPEG4Audio)
+		return ok, ok
+	case kOpus:
+		_, ok := c.(*fmp4.CodecOpus)
+		return ok, ok
+	}
+	return false, false
+}
+
 // ---------------------------------------------------------------- C01
 func (o *oracleCtx) c01() {
 	h, r := o.h, o.r
@@ -474,8 +516,8 @@ func (o *oracleCtx) c02() {
 		for ri, rot := range r.rotations {
 			for ; opAt <= rot.k && opAt < len(h.Ops); opAt++ {
 				a := h.Ops[opAt]
-				if h.Tracks[a.Track].Kind == kH264 {
-					if a.HasParams && a.Params != cur[a.Track] {
+				if k := h.Tracks[a.Track].Kind; isVideoKind(k) {
+					if carriesParams(k, &a) && a.Params != cur[a.Track] {
 						cur[a.Track] = a.Params
 						pending = true
 					}
@@ -510,9 +552,14 @@ func (o *oracleCtx) c02() {
 					o.fail("C02", vn+":init-tracks", "stream %d: init declares %d tracks (id/timescale mismatch, want id 1 timescale %d)", si, len(init.Tracks), wantTS)
 					continue
 				}
-				if c, ok := init.Tracks[0].Codec.(*fmp4.CodecH264); ok && rot.segRotated && !pending {
+				carries, sameKind := initCarries(t.Kind, init.Tracks[0].Codec, cur[si])
+				if !sameKind {
+					o.fail("C02", vn+":init-codec", "stream %d: the init segment declares a %T for a track of kind %d", si, init.Tracks[0].Codec, t.Kind)
+					continue
+				}
+				if isVideoKind(t.Kind) && rot.segRotated && !pending {
 					// the newest listed segment: was it encoded with parameters that differ from the init's?
-					if !bytes.Equal(c.SPS, spsOf(cur[si])) || !bytes.Equal(c.PPS, ppsOf(cur[si])) {
+					if !carries {
 						// only required once a complete segment with the new parameters is listed: the
 						// segment published now starts at a unit carrying them iff its start was forced
 						startsForced := false
@@ -520,7 +567,7 @@ func (o *oracleCtx) c02() {
 							startsForced = bp.forced[segFirstID[sg]]
 						}
 						if startsForced {
-							o.fail("C02", vn+":init-stale-parameters", "stream %d: a complete segment with changed parameters is listed (write %d) and no change is pending, but the init segment still carries the old SPS/PPS", si, rot.k)
+							o.fail("C02", vn+":init-stale-parameters", "stream %d: a complete segment with changed parameters is listed (write %d) and no change is pending, but the init segment does not carry the current parameters (id %d) of the kind-%d track", si, rot.k, cur[si], t.Kind)
 						}
 					}
 				}
@@ -893,12 +940,32 @@ func expectedCodec(h *history, t int, params int64) string {
 	case kH264:
 		s := spsOf(params)
 		return "avc1." + hex.EncodeToString(s[1:4])
+	case kH265, kVP9, kAV1:
+		return videoCodecString(h.Tracks[t].Kind, params)
 	case kAAC:
 		return "mp4a.40.2"
 	case kOpus:
 		return "opus"
 	}
 	return "?"
+}
+
+// RESOLUTION and frames per second (0 = the parameter sets carry no timing) of a video track's parameters
+func expectedVideoInfo(kind int, params int64) (string, float64) {
+	switch kind {
+	case kH264:
+		var sps h264.SPS
+		if err := sps.Unmarshal(spsOf(params)); err != nil {
+			return "", 0
+		}
+		return strconv.Itoa(sps.Width()) + "x" + strconv.Itoa(sps.Height()), sps.FPS()
+	case kH265:
+		return strconv.Itoa(h265Width(params)) + "x" + strconv.Itoa(h265Height(params)), h265FPS(params)
+	case kVP9, kAV1:
+		w, hh := videoResolution(kind, params)
+		return strconv.Itoa(w) + "x" + strconv.Itoa(hh), 0
+	}
+	return "", 0
 }
 
 func (o *oracleCtx) c16() {
@@ -914,7 +981,7 @@ func (o *oracleCtx) c16() {
 	for _, rot := range r.rotations {
 		for ; opAt <= rot.k && opAt < len(h.Ops); opAt++ {
 			a := h.Ops[opAt]
-			if h.Tracks[a.Track].Kind == kH264 && a.HasParams {
+			if carriesParams(h.Tracks[a.Track].Kind, &a) {
 				cur[a.Track] = a.Params
 			}
 		}
@@ -964,15 +1031,21 @@ func (o *oracleCtx) c16() {
 		sort.Strings(got)
 		want := append([]string{}, wantCodecs...)
 		sort.Strings(want)
-		if strings.Join(got, ",") != strings.Join(want, ",") {
+		// hexadecimal fields (avc1 profile/level bytes, hvc1 flag bytes) carry no case requirement
+		if !strings.EqualFold(strings.Join(got, ","), strings.Join(want, ",")) {
 			o.fail("C16", vn+":codecs", "CODECS %q, the tracks' current parameters give %q", strings.Join(p.codecs, ","), strings.Join(wantCodecs, ","))
 		}
 		if hasVideo {
-			var sps h264.SPS
-			if err := sps.Unmarshal(spsOf(cur[lead])); err == nil {
-				wantRes := strconv.Itoa(sps.Width()) + "x" + strconv.Itoa(sps.Height())
-				if p.resolution != wantRes {
-					o.fail("C16", vn+":resolution", "RESOLUTION %q, SPS says %q", p.resolution, wantRes)
+			wantRes, wantFPS := expectedVideoInfo(h.Tracks[lead].Kind, cur[lead])
+			if wantRes != "" && p.resolution != wantRes {
+				o.fail("C16", vn+":resolution", "RESOLUTION %q, the current parameters (kind %d, id %d) say %q", p.resolution, h.Tracks[lead].Kind, cur[lead], wantRes)
+			}
+			// FRAME-RATE: only a value that contradicts the parameter sets is a violation (parameter sets
+			// without timing information determine none; H264 was not checked before and stays so)
+			if h.Tracks[lead].Kind != kH264 && p.frameRate != "" {
+				got, err := strconv.ParseFloat(p.frameRate, 64)
+				if err != nil || wantFPS == 0 || got-wantFPS > 0.0015 || wantFPS-got > 0.0015 {
+					o.fail("C16", vn+":frame-rate", "FRAME-RATE %q, the current parameters (kind %d, id %d) give %v", p.frameRate, h.Tracks[lead].Kind, cur[lead], wantFPS)
 				}
 			}
 		} else if p.resolution != "" {
@@ -1138,8 +1211,38 @@ func (o *oracleCtx) c18() {
 				o.fail("C18", vn+":too-many-files", "%d files on disk", len(rot.dirFiles))
 			}
 		}
-		if len(rot.snap.Paths) > 1+len(rot.snap.Streams)*(3+effSegCount(h))+64*len(rot.snap.Streams)*3 {
-			o.fail("C18", vn+":url-table-unbounded", "%d registered paths", len(rot.snap.Paths))
+		// the URL table holds nothing but: the index, and per stream its playlist, its init, its retained
+		// segments, the parts of the retained and of the open segment, and the preload hint (the next
+		// part). Everything else is a URI that should have stopped resolving. (The number of parts of
+		// one segment is not bounded by any configuration value - a long GOP with a short part duration
+		// gives hundreds - so a fixed count would demand more than the property.)
+		{
+			allowed := map[skey]bool{{0, 0, 0}: true}
+			for si, s := range rot.snap.Streams {
+				allowed[skey{1, si, 0}] = true
+				allowed[skey{2, si, 0}] = true
+				for _, id := range s.SegmentIDs {
+					if id >= 0 {
+						allowed[skey{3, si, id}] = true
+					}
+				}
+				for _, ids := range s.SegmentPartIDs {
+					for _, id := range ids {
+						allowed[skey{4, si, int64(id)}] = true
+					}
+				}
+				for _, id := range s.NextSegmentPartIDs {
+					allowed[skey{4, si, int64(id)}] = true
+				}
+				allowed[skey{4, si, int64(s.NextPartID)}] = true
+			}
+			for _, pth := range rot.snap.Paths {
+				key, ok := parsePath(r.streams, pth)
+				if !ok || !allowed[key] {
+					o.fail("C18", vn+":url-table-stale-entry", "path %s (%s) is still registered although it belongs to nothing the muxer retains (write %d, %d paths)", pth, kindName(key.kind), rot.k, len(rot.snap.Paths))
+					break
+				}
+			}
 		}
 	}
 	// published payload per segment never exceeds SegmentMaxSize
